@@ -196,6 +196,12 @@ class Gen:
                 mn = rng.choice([0, 1, 2, 3])
                 d["kind"] = ("var", mn, rng.choice([None, None, mn + 4, mn + 9, 15]), None)
             d["optional"] = rng.random() < 0.2
+            if self.w is PROFILES.get("focus_ind") or self.w is PROFILES.get("focus_obj") or self.direction is not None:
+                # due-date indicators need due dates: soft ones, so that a task may really be late, weights incl. 0
+                if rng.random() < 0.45:
+                    d["due"] = rng.choice([0, 1, 3, 5, 8])
+                    d["deadline"] = False
+                    d["prio"] = rng.choice([0, 0, 1, 2, 5])
             return self.emit(d)
         if rng.random() < 0.3:
             d["release"] = rng.choice([0, 1, 2, 3, 5])
@@ -206,6 +212,8 @@ class Gen:
             d["work"] = rng.choice([0, 1, 3, 6, 10])
         if rng.random() < 0.4:
             d["prio"] = rng.choice([0, 1, 2, 5])
+        if d.get("due") is not None and not d.get("deadline") and rng.random() < 0.5:
+            d["prio"] = rng.choice([0, 0, 1, 3])      # weightless late tasks
         if rng.random() < self.invalid_p:
             d = dict(d, **rng.choice([{"kind": ("fixed", 0)}, {"work": -1}, {"prio": -1}, {"kind": ("var", -1, None, None)},
                                       {"name": rng.choice(self.tasks() or [name])}]))
